@@ -1,7 +1,7 @@
 //! Frozen format specification of abyssiniandb 0.1.4 (default feature set:
 //! vf_vu64 + htx_bitmap), written from the layout tables in key.rs / val.rs / htx.rs and the
 //! README of vu64 at the pinned commit.  It shares no code with the crate.  Harness crates
-//! include it with `#[path]`; the native validation (bin/validate_spec) decodes files written
+//! include it with `#[path]`; the native validation (bin/validate spec) decodes files written
 //! by the real crate with it.
 #![allow(dead_code)]
 
